@@ -49,7 +49,8 @@ CFG = {'streams': [{'name': 'C05x',
                 'of every query it accepts and compiles the merged source), parse X (S (length text)) text is a file or a ParseError: no panic site, '
                 'no fuel exhaustion (linear bound); parse_never_out_of_fuel - without any assumption: never out of fuel, and the only reachable '
                 'panic sites are 7 (.expect on the full-match capture index) and 8 (merged Query::new(..).unwrap()), both decided by tree-sitter; '
-                'all six self.skip().unwrap() sites are unreachable; integer / $n overflow is an error, not a panic (also C07 '
+                'all six self.skip().unwrap() sites are unreachable; parse_never_expected_quantifier / parse_quantifier_never_fails - for every text and any externals parsing never returns variant 1, and the repaired parse_quantifier returns no error '
+                '(ParseError::ExpectedQuantifier is never produced; `global x!` is UnexpectedEOF / a QueryError raised by the caller); integer / $n overflow is an error, not a panic (also C07 '
                 'integer_literal_overflow). Correspondence stream C05p: see C07.py.',
  'assumptions': ['hypotheses of the no-panic theorems about externals: tree-sitter binds every capture whose quantifier is One in every match (false '
                  'for more than three captures on one query node: finding K8; the *_only_missing_capture theorems drop this hypothesis), reports '
